@@ -1,11 +1,26 @@
 PROP = {
  "id": "C08",
- "specs": [],
- "functions": [],
+ "specs": [
+  "specs.operators"
+ ],
+ "functions": [
+  "mouette.operators.adjacency.adjacency_matrix#one",
+  "mouette.operators.adjacency.adjacency_matrix#length",
+  "mouette.operators.adjacency.adjacency_matrix#custom",
+  "mouette.operators.adjacency.vertex_to_edge_operator",
+  "mouette.operators.adjacency.vertex_to_face_operator",
+  "mouette.operators.laplacian_op.graph_laplacian"
+ ],
  "level": "other",
- "explanation": "No deductive obligation yet: the operators are assembled through scipy sparse matrices (COO triplets, LIL item assignment) over attribute objects, which the verification-condition generator does not model; the planned ghost-assembly contracts were not built. Decided only within the stated bound by the native run-time contract with an independent numpy assembly. This is NOT a proof.",
+ "explanation": "Under machine-checked contract: the Python loops that decide WHICH entries the combinatorial operators have - adjacency_matrix (three weightings: entry 2e is (a_e,b_e,w_e), entry 2e+1 is (b_e,a_e,w_e), nothing else), vertex_to_edge_operator (coefficient 1 at the arrival, -1/1 at the origin, no entry that is not an (extremity, edge) pair), vertex_to_face_operator (1/len(f) at every (vertex of f, f), nothing else), graph_laplacian (for every vertex: the degree on the diagonal followed by -1 for each neighbour, i.e. degree minus adjacency at the level of the triplets). scipy is NOT verified: coo_matrix / csc_matrix((data,(rows,cols))) and lil_matrix are trusted constructors recording the triplets / the entry map (assumption A-scipy). The cotangent Laplacian, gradient, mass matrices and the dual / volume Laplacians (numpy attribute arrays, cotangents, complex bases) are decided only within the stated bound by the native run-time contract with an independent numpy assembly; that part is NOT a proof.",
  "trusted_base": [
-  "independent dense assembly from hat-function gradients (replay/C08.py)"
+  "A1 CPython executes the parsed AST as pyvc models it",
+  "A3 z3 is sound",
+  "A-scipy: sp.coo_matrix / sp.csc_matrix((data,(rows,cols)),shape) denote the sum of the given triplets; sp.lil_matrix item assignment overwrites exactly one entry and tocsc() keeps the entries (index-out-of-shape errors not modelled)",
+  "C01 contract of connectivity.vertex_to_vertices (answer named by the uninterpreted nbr_len / nbr_at)",
+  "graph_laplacian: the prefix sums pre[] of (1 + degree) are a logical parameter; their monotonicity (a consequence of the recurrence by induction) and the handshake identity pre[n] == 2|E|+|V| are preconditions, not proved",
+  "decorators @forbidden_mesh_types / @allowed_mesh_types (argument type check) are not modelled",
+  "independent dense assembly from hat-function gradients (replay/C08.py) for the bounded part"
  ],
  "bounded": [
   {
@@ -16,7 +31,8 @@ PROP = {
   }
  ],
  "not_decided": [
-  "everything beyond the bound"
+  "cotangent / dual / volume Laplacians, gradient, mass matrices beyond the bound",
+  "the numerical meaning of duplicate COO entries (none are produced for simple graphs: not proved)"
  ],
  "math": []
 }
